@@ -296,8 +296,18 @@ def m_all(it, x):
     return True if z3.is_true(r) else (False if z3.is_false(r) else r)
 
 
+def m_sum(it, x, start=0):
+    c = x if isinstance(x, (list, tuple)) and not (isinstance(x, tuple) and x and isinstance(x[0], str)) else it.concrete_iter(x)
+    if c is None:
+        raise Unsupported("sum() of a symbolic iterable")
+    acc = start
+    for v in c:
+        acc = acc + v
+    return acc
+
+
 BUILTINS = {}
-for _n, _f in [('any', m_any), ('all', m_all), ('abs', m_abs), ('min', m_min), ('max', m_max), ('len', m_len), ('tuple', m_tuple), ('list', m_list),
+for _n, _f in [('sum', m_sum), ('any', m_any), ('all', m_all), ('abs', m_abs), ('min', m_min), ('max', m_max), ('len', m_len), ('tuple', m_tuple), ('list', m_list),
                ('set', m_set), ('dict', m_dict), ('range', m_range), ('zip', m_zip), ('int', m_int),
                ('float', m_float), ('isinstance', m_isinstance), ('type', m_type), ('reversed', m_reversed)]:
     BUILTINS[_n] = Model(_n, _f)
